@@ -78,7 +78,14 @@ def run_shard(spec, ctx):
     for n in range(spec['n']):
         if n % 2 == 0:
             k = rnd.random()
-            if k < 0.35:
+            if k < 0.08:
+                # next to the half-planes y = 0 of the library frame (azimuth 0 and the +-pi branch cut), both sides
+                z = rnd.uniform(-1, 1)
+                h = math.sqrt(1 - z * z)
+                yy = h * 10 ** rnd.uniform(-15, -2) * rnd.choice((-1, 1, 0))
+                x = geo.unit((rnd.choice((-1, -1, 1)) * h, yy, z))
+                cls = 'uniform'
+            elif k < 0.35:
                 x = geo.unit((rnd.gauss(0, 1), rnd.gauss(0, 1), rnd.gauss(0, 1)))
                 cls = 'uniform'
             else:
